@@ -255,8 +255,37 @@ func work(jobs <-chan job, out chan<- Mismatch, st *stats, mu *sync.Mutex) {
 	mu.Unlock()
 }
 
+// nameLimit: a pattern may use up to 64 names; the parser has to reject the 65th.
+func nameLimit() {
+	mk := func(k int) string {
+		var sb strings.Builder
+		sb.WriteString("(Or")
+		for i := 1; i <= k; i++ {
+			fmt.Fprintf(&sb, " (BinaryExpr n%d@(Any) \"+\" (Ident \"v%d\"))", i, i)
+		}
+		sb.WriteString(")")
+		return sb.String()
+	}
+	res := map[string]any{}
+	for _, k := range []int{64, 65} {
+		_, err := (&pattern.Parser{}).Parse(mk(k))
+		res[fmt.Sprintf("n%d_parses", k)] = err == nil
+		if err != nil {
+			res[fmt.Sprintf("n%d_err", k)] = err.Error()
+		} else {
+			res[fmt.Sprintf("n%d_err", k)] = ""
+		}
+	}
+	json.NewEncoder(os.Stdout).Encode(map[string]any{"limit": res})
+}
+
 func main() {
+	limit := flag.Bool("limit", false, "only probe the 64-name limit of the parser")
 	flag.Parse()
+	if *limit {
+		nameLimit()
+		return
+	}
 	jobs := make(chan job, 4096)
 	out := make(chan Mismatch, 1024)
 	var st stats
@@ -269,12 +298,17 @@ func main() {
 	var mism []Mismatch
 	total := 0
 	byKind := map[string]int{}
+	perPat, kept := map[string]int{}, map[string]int{}
 	done := make(chan struct{})
 	go func() {
 		for m := range out {
 			total++
 			byKind[m.Kind]++
-			if byKind[m.Kind] <= *maxMis {
+			// keep a diverse sample: at most two mismatches per (kind, pattern), *maxMis per kind
+			pk := fmt.Sprintf("%s/%s/%d", m.Kind, m.File, m.PI)
+			if perPat[pk] < 2 && kept[m.Kind] < *maxMis {
+				perPat[pk]++
+				kept[m.Kind]++
 				mism = append(mism, m)
 			}
 		}
